@@ -122,17 +122,18 @@ full write queue). `seeded/C08-*2`'s author also reported a use-after-free on
 the *unchanged* tree; it was reproduced by a new SCHED litmus program and
 repaired (R3, §2).
 
-Not caught, with the reason:
+Not caught (or caught only elsewhere), with the reason:
 * `C06-A2` — the change stamps a hit with a clock reading taken a few
   statements later inside the same `get`. At the granularity of API calls "the
   clock reading of the get" is any reading between the call's start and end,
   so no history oracle can distinguish the two; not a violation one can state
   against the property.
-* `C12-A2` — needs two readers of one key whose reads are recorded in the
-  opposite order of their clock readings. The concurrent clause of C12 ("with
-  respect to the order in which maintenance applied the recorded reads") is
-  only checked in the sequential domain; deciding it under SCHED would need the
-  oracle to re-implement the maintenance pipeline. Recorded as a gap (§7).
+* `C12-A2` — missed at first (the concurrent clause of C12 was only checked in
+  the sequential domain). Now caught: SCHED runs get/insert-only programs with
+  no maintenance during the threaded phase, derives the order in which reads
+  were recorded and writes queued from the scheduler trace, and compares the
+  resulting LRU order with the order in which popular newcomers then evict the
+  residents.
 * `C13-B2` — the patch no longer applies after the R3 repair rewrote the lines
   it touches (not run).
 * `C14-B2` — the statement only promises that a get is recorded *at most* once
